@@ -169,3 +169,36 @@ def check_process_defaults(kind: int) -> bool:
         return p.init_main_module is False and p.env == {} and p._start_method == "loky"
     p = lproc.LokyInitMainProcess(target=len)
     return p.init_main_module is True and p._start_method == "loky_init_main"
+
+
+def check_prepare_initializer(kind: int, viz: bool, a: int) -> bool:
+    """
+    pre: 0 <= kind <= 2
+    post: _
+    """
+    import loky.initializers as li
+    kind = _conc(kind, 2)
+    calls = []
+
+    def user_init(*args):
+        calls.append(("user", args))
+
+    def viz_init(*args):
+        calls.append(("viz", args))
+
+    saved = li._make_viztracer_initializer_and_initargs
+    li._make_viztracer_initializer_and_initargs = lambda: (viz_init, ("cfg",)) if viz else (None, ())
+    try:
+        try:
+            init, args = li._prepare_initializer([None, user_init, 42][kind], (a, 2))
+        except TypeError:
+            return kind == 2  # a non-callable initializer is rejected up front
+    finally:
+        li._make_viztracer_initializer_and_initargs = saved
+    if kind == 2:
+        return False
+    if init is None:
+        return kind == 0 and not viz and args == ()
+    init(*args)  # the way _process_worker calls it
+    want = ([("user", (a, 2))] if kind == 1 else []) + ([("viz", ("cfg",))] if viz else [])
+    return calls == want  # Nones filtered, order kept, each with its own initargs
